@@ -55,6 +55,15 @@ Theorem C12_stop_rule_getaddrinfo : forall names o, names <> [] ->
 Proof. exact ai_run_correct. Qed.
 Print Assumptions C12_stop_rule_getaddrinfo.
 
+(* ares_getaddrinfo with AF_UNSPEC (an A and an AAAA query per candidate): same rule, the status
+   of a candidate being data if either family gave addresses, else the status of the query that
+   completed last *)
+Theorem C12_stop_rule_getaddrinfo_unspec : forall names o, names <> [] ->
+  ai2_run names o = Ok (spec_queried names (fun i => ai_status (ai2_combine (fst (o i)) (snd (o i)))),
+                        spec_status names (fun i => ai_status (ai2_combine (fst (o i)) (snd (o i))))).
+Proof. exact ai2_run_correct. Qed.
+Print Assumptions C12_stop_rule_getaddrinfo_unspec.
+
 (* The pinned search_callback does NOT satisfy the rule: "h" with search domain "d", ndots 1,
    "h.d" without data, then SERVFAIL for the single label "h" reports SERVFAIL, not no-data. *)
 Theorem C12_stop_rule_pinned_refuted :
